@@ -54,8 +54,11 @@ def oracle(cs, h, lines):
         answers = [(h['plat']['full'][nfull + j] if nfull + j < len(h['plat']['full']) else 0) for j in range(len(fulls))]
         nfull += len(fulls)
         if f['call'][0] == 'trace' and f['ret'] and (f['disc_after'] - f['disc_before']) % (1 << 32) != 0:
-            if not any(answers) and any(l.startswith('cb ') and not l.startswith('cb clock') for l in f['seg']):
-                fails.append('record discarded although the back end never answered "full" during the call')
+            switched_to_empty = any(l.startswith('cb open') and ' f=1' in l for l in f['seg']) and f['ret']['empty'] == '1'
+            if not any(answers) and not switched_to_empty and \
+                    any(l.startswith('cb ') and not l.startswith('cb clock') for l in f['seg']):
+                fails.append('record discarded although the back end never answered "full" during the call and the '
+                             'current packet is not an empty one it was just moved to')
     return fails
 
 
